@@ -301,7 +301,8 @@ def check_shape(ctx, fb):
         outer = [b for b in backs if writes(b)]
         good = False
         for b in backs:
-            acc = carried_value(mit, b, "acc")
+            accs = [v for ph, v in loop_phis(b) if isinstance(v, tuple) and v and v[0] == "fadd" and ph in v[1:]]
+            acc = accs[0] if len(accs) == 1 else None
             if acc is not None and acc[0] == "fadd":
                 a = norm_loopvars(acc)
                 n = ("len", P(2))
